@@ -341,3 +341,53 @@ Proof.
   rewrite Hrem in Hrm. rewrite Hdl in Hlive. exists out, e, b', tl. cbn [app] in Hpay.
   split; [exact Hr|]. split; [exact Hpay|]. split; [exact He|]. split; [exact Hc|]. split; [exact Hrm|]. exact Hlive.
 Qed.
+
+(** * The candidate finding, on the model: a body SHORTER than its Content-Length ends with a
+    plain EOF.  Witness: Content-Length 5, one DATA frame "abc", clean end of stream. *)
+Definition under_witness_frames : list wframe := [WData [0] [3] [97; 98; 99]].
+
+Lemma venc_1byte (v : Z) : 0 <= v < 64 -> venc [v] v.
+Proof.
+  intros H rest. cbn [app vparse]. replace (v / 64) with 0 by (symmetry; apply Z.div_small; lia).
+  cbn. rewrite Z.mod_small by lia. reflexivity.
+Qed.
+
+Lemma under_witness_wf : Forall wf_frame under_witness_frames.
+Proof. repeat constructor; apply venc_1byte; lia. Qed.
+
+Lemma content_length_under_witness :
+  exists (fs : list wframe) (cl : Z) (bufs : list Z) (b' : body),
+    Forall wf_frame fs /\ zlen (payload fs) < cl /\
+    body_reads (new_body (new_stream (mkSrc (wire fs) [] EEOF false) 1000) cl) bufs = (payload fs, Some EEOF, b') /\
+    b_cancels b' = [] /\ 0 < b_rem b'.
+Proof.
+  exists under_witness_frames, 5, [16; 16]. eexists.
+  split; [exact under_witness_wf|]. split; [vm_compute; reflexivity|].
+  split; [vm_compute; reflexivity|]. split; vm_compute; reflexivity.
+Qed.
+
+(** ... and not only for the witness: whenever fewer bytes arrive than declared, the only error
+    a caller can ever see is the plain EOF, with [cl - |payload|] bytes still owed. *)
+Corollary content_length_under_always_eof (fs : list wframe) (sched : list Z) (fw : bool) (maxHdr cl : Z) (bufs : list Z) :
+  Forall wf_frame fs -> zlen (payload fs) < cl -> all_pos bufs -> (length (wire fs) < length bufs)%nat ->
+  exists b', body_reads (new_body (new_stream (mkSrc (wire fs) sched EEOF fw) maxHdr) cl) bufs = (payload fs, Some EEOF, b') /\
+             b_cancels b' = [] /\ b_rem b' = cl - zlen (payload fs) /\ 0 < b_rem b'.
+Proof.
+  intros Hw Hcl Hpos Hlen.
+  destruct (content_length_le fs sched fw maxHdr cl bufs Hw ltac:(lia)) as (out & e & b' & tl & Hr & Hpay & He & Hc & Hrm & Hlive).
+  specialize (Hlive Hpos Hlen). subst e. destruct He as [He|[_ ->]]; [discriminate|].
+  rewrite app_nil_r in Hpay. subst out. exists b'. repeat split; auto. lia.
+Qed.
+
+(** Non-vacuity material: a concrete well-formed sequence with an unknown (GREASE) frame, a
+    non-minimally encoded DATA header and an empty DATA frame. *)
+Lemma venc_2byte_zero : venc [64; 0] 0.
+Proof. intros [|r rest]; reflexivity. Qed.
+
+Definition example_frames : list wframe :=
+  [WIgn 33 [33] [2] [7; 7]; WData [64; 0] [3] [1; 2; 3]; WData [0] [0] []; WIgn 13 [13] [1] [9]; WData [0] [2] [4; 5]].
+
+Lemma example_frames_wf : Forall wf_frame example_frames.
+Proof.
+  repeat constructor; try (apply venc_1byte; lia); try exact venc_2byte_zero.
+Qed.
